@@ -853,6 +853,9 @@ def parallel_real_oracle(c, o, s, which):
     seq_tail = tail.split(' ')[0]
     recs_s, par_tail = head.rsplit(' ', 1)
     seen = [] if recs_s == '-' else [parse_fields(x) for x in recs_s.split('/')]
+    if par_tail == 'END!again':
+        v.failures.append('after the end marker a further call of next() returned a result instead of the end')
+        return v
     want = [it for it in items if it[0] == 'rec']
     v.nontrivial = len(seen) > 0
 
@@ -898,7 +901,7 @@ def parallel_real_oracle(c, o, s, which):
         # only for a record that does not fit; if every record of the input fits the initial capacity the buffer (and
         # with it every recycled record set, which copies it) keeps its size however long the input is
         m = re.search(r' gr=(\d+)', o)
-        if m and len(t[1]) == 3 and '@' not in t[5]:
+        if m and len(t[1]) == 3 and not t[1].endswith('4') and '@' not in t[5]:
             inp = bytes.fromhex(t[6]) if t[6] != '-' else b''
             cap = int(t[4])
             ext = record_extents(fmt, inp, items)
@@ -963,7 +966,7 @@ def logical_stream(fmt, toks):
             f = parse_fields(t[2:])
             prev_rec = True
             if fmt == 'fa':
-                out.append(('R', f.get('h'), f.get('l'), f.get('n')))
+                out.append(('R', f.get('h'), f.get('l'), f.get('n'), f.get('f')))
             else:
                 out.append(('R', f.get('h'), f.get('s'), f.get('q')))
         elif t.startswith('P'):
@@ -995,7 +998,7 @@ def recode_group_oracle(fmt, group):
                 i, str(a[i] if i < len(a) else None)[:90], str(b[i] if i < len(b) else None)[:90])
         for x in b:
             if x[0] == 'R':
-                fields = ''.join(v for v in x[1:3] if v) + (x[3] if fmt == 'fq' and x[3] else '')
+                fields = ''.join(v for v in x[1:3] if v) + (x[3] if fmt == 'fq' and x[3] else '') + (x[4] if fmt == 'fa' and len(x) > 4 and x[4] else '')
                 raw = bytes.fromhex(fields.replace('.', ''))
                 if b'\r' in raw:
                     return 'a carriage return shows up in a returned field'
@@ -1019,14 +1022,26 @@ def unchanged_oracle(case, toks):
             return v
     got = b''.join(us)
     if fmt == 'fq':
-        # byte-exact except that trailing blank lines are dropped and a final terminator is added
-        if got.rstrip(b'\r\n') != inp.rstrip(b'\r\n') or (got and not got.endswith(b'\n')):
-            v.failures.append('unchanged output differs from the input: %r vs %r' % (got[-80:], inp[-80:]))
-    else:
-        want = inp.lstrip(b'\r\n')
-        if want and not want.endswith(b'\n'):
+        # byte-exact – line endings included – except that trailing blank lines are dropped and a final line feed is
+        # added if the last line has none (a carriage return at the very end of the input belongs to the last line)
+        # the records are the first 4·n lines of the input (what follows are trailing blank lines)
+        pieces = inp.split(b'\n')
+        want = b'\n'.join(pieces[:4 * len(us)])
+        if us:
             want += b'\n'
         if got != want:
+            v.failures.append('unchanged output differs from the input: %r vs %r' % (got[-80:], inp[-80:]))
+    else:
+        # up to blank-line normalisation: compare what remains when blank lines (empty or a lone CR) are left out
+        def no_blank(x):
+            ps = x.split(b'\n')
+            if ps and ps[-1] == b'':
+                ps = ps[:-1]
+            return b''.join(p + b'\n' for p in ps if p not in (b'', b'\r'))
+        want = inp
+        if want and not want.endswith(b'\n'):
+            want += b'\n'
+        if no_blank(got) != no_blank(want):
             v.failures.append('unchanged output differs from the input: %r vs %r' % (got[:80], want[:80]))
     v.nontrivial = len(us) > 0
     return v
@@ -1482,10 +1497,20 @@ def recset_iter_oracle(c, o, s):
     end and past it and reports the first breach of the contract (`I!...`); judged on the iterator alone"""
     v = Verdict()
     toks, _ = split_obs(canon(o))
+    ended = False
     for idx, tok in enumerate(toks):
         t = strip_growth(tok)
         if t in ('PANIC', 'HANG'):
             v.failures.append('%s at op %d' % (t, idx))
+            return v
+        # fusedness of the reader-backed iterators: once a read has reported the end, every later read (without a seek
+        # in between) reports the end
+        if t == 'K':
+            ended = False
+        elif t == 'N' or t.startswith('N!'):
+            ended = True
+        elif ended and t.startswith(('R:', 'O:', 'S')) and t[:2] != 'S0':
+            v.failures.append('op %d: the reader had reported the end of the input and then delivered %s (no seek in between)' % (idx, t[:50]))
             return v
         if t.startswith('I!'):
             v.failures.append('op %d: record-set iterator breaks its contract: %s' % (idx, t[2:].split(':')[0]))
